@@ -457,9 +457,17 @@ def _long_inputs(rng):
     n = rng.choice([8192, 8193, 8200, 9000, 16384 + 7, 17000])
     m = rng.choice([1, 3, 8, 9, 16])
     pat = [rng.random() < 0.5 for _ in range(m)]
+    if rng.random() < 0.25:
+        # constant data and pattern: every position matches, so a position reported twice or skipped at a chunk border shows
+        bit = rng.random() < 0.5
+        return [bit] * n, [bit] * m
     data = [rng.random() < 0.5 for _ in range(n)]
-    for _ in range(rng.randint(0, 6)):                       # plant a few, some at the chunk borders and the very ends
-        at = rng.choice([0, n - m, 8192 - m, 8192, n - 8192, n - 8192 - m, rng.randrange(0, n - m + 1), 8 * rng.randrange(0, (n - m) // 8 + 1)])
+    borders = [0, n - m, rng.randrange(0, n - m + 1), 8 * rng.randrange(0, (n - m) // 8 + 1)]
+    for k in (1, 2):
+        for d in (-m - 1, -m, -m + 1, -1, 0, 1):
+            borders += [8192 * k + d, n - 8192 * k + d, n - m + 1 - 8192 * k + d]      # chunk borders counted from either end
+    for _ in range(rng.randint(1, 8)):                       # plant a few, most at the chunk borders and the very ends
+        at = rng.choice(borders)
         if 0 <= at <= n - m:
             data[at:at + m] = pat
     return data, pat
